@@ -89,9 +89,14 @@ func (g *cronGen) newEntry(likeEid int) int {
 		}
 		expr = cronExprs[g.r.Intn(len(cronExprs))]
 	}
-	row, err := cron.RowRaw{Param: param, Schedule: expr}.Parse()
+	given := param.Clone()
+	row, err := cron.RowRaw{Param: given, Schedule: expr}.Parse()
 	if err != nil {
 		panic(err)
+	}
+	if g.scrib {
+		// the caller keeps writing to the maps it passed in
+		scribbleParam(given)
 	}
 	start := g.now
 	if g.r.Intn(3) == 0 {
